@@ -15,7 +15,7 @@ for d in sorted(glob.glob(os.path.join(V, "benign", "refactor_*.diff")), key=lam
     if only and os.path.basename(d) not in only and os.path.basename(d)[:-5].split("_")[-1] not in only:
         continue
     try:
-        sc = selftest.make_scratch(12, d)
+        sc = selftest.make_scratch(int(os.environ.get("BENIGN_SLOT", "12")), d)
     except gen.CheckerError as e:
         print(os.path.basename(d), "does not apply:", str(e).split("\n")[0][:100])
         continue
